@@ -99,6 +99,16 @@ def run(chk, replay=None):
                 bad.append(('less_equal_ecdf', q, val, repr(l), le[q - 1], n))
             if isinstance(dd, Raised) or tuple(dd) != (g, l):
                 bad.append(('get_quantiles', q, val, repr(dd), (ge[q - 1], le[q - 1]), n))
+            if container != 'list' and q % 3 == 0:
+                # the same two calls with the precomputed cdf pair the library offers for repeated queries
+                pre = guarded(stats.ecdf, x)
+                g2 = pre if isinstance(pre, Raised) else guarded(stats.greater_equal_ecdf, x, val, cdf=pre)
+                l2 = pre if isinstance(pre, Raised) else guarded(stats.less_equal_ecdf, x, val, cdf=pre)
+                chk.count(2)
+                if isinstance(g2, Raised) or float(g2) != ge[q - 1] / n:
+                    bad.append(('greater_equal_ecdf(cdf=)', q, val, repr(g2), ge[q - 1], n))
+                if isinstance(l2, Raised) or float(l2) != le[q - 1] / n:
+                    bad.append(('less_equal_ecdf(cdf=)', q, val, repr(l2), le[q - 1], n))
         return bad
 
     rng = random.Random(chk.seed + 909)
@@ -161,6 +171,30 @@ def run(chk, replay=None):
         exp = [sum(1 for a in x if a <= vv) / n for vv in vals]
         if isinstance(out, Raised) or [float(a) for a in out[1]] != exp:
             chk.violation('binned_ecdf', {'x': x, 'vals': vals, 'got': repr(out), 'exp': exp})
+
+    # queries at the ends of the float range (below / above every sample value whatever the sample), with and without a
+    # precomputed (sorted values, cumulative fractions) pair passed as cdf
+    for t in range(40 if quick else 400):
+        n = rng.randint(1, 12)
+        x = [rng.choice([-3, 0, 0, 2, 7, 7.5, 1e300, -1e300]) for _ in range(n)]
+        xs = numpy.array(x, dtype=float)
+        for val, want_ge, want_le in ((float('inf'), sum(1 for a in x if a >= float('inf')), n), (float('-inf'), n, 0),
+                                      (1.7976931348623157e308, 0, n), (-1.7976931348623157e308, n, 0)):
+            for style in ('list', 'array', 'cdf'):
+                kw = {}
+                arg = x if style == 'list' else xs
+                if style == 'cdf':
+                    pre = guarded(stats.ecdf, xs)
+                    if isinstance(pre, Raised):
+                        chk.violation('ecdf raised', {'x': x, 'err': repr(pre)})
+                        continue
+                    kw = {'cdf': pre}
+                g = guarded(stats.greater_equal_ecdf, arg, val, **kw)
+                l = guarded(stats.less_equal_ecdf, arg, val, **kw)
+                chk.count(2)
+                if isinstance(g, Raised) or isinstance(l, Raised) or float(g) != want_ge / n or float(l) != want_le / n:
+                    chk.violation('extreme query:%s' % style, {'x': x, 'val': val, 'ge': repr(g), 'le': repr(l), 'expected': [want_ge / n, want_le / n]})
+        chk.nontrivial('extreme|%d' % t)
 
     # code -> trace: large samples, heavy ties
     traces = []
